@@ -75,6 +75,13 @@ type Grammar struct {
 	// Extra lexer lines (verbatim, each without trailing newline), e.g. a
 	// whitespace fragment.
 	LexExtra []string
+	// CustomLexer, when set, replaces the generated "@lexer" section of the
+	// main file verbatim (it must declare every token of Tokens, in that
+	// order, possibly spread over OtherFiles which sort before the main file).
+	CustomLexer string
+	OtherFiles  map[string]string
+	// WithLex makes the harness expose the generated lexer state machine too.
+	WithLex bool
 }
 
 // TokType is the generated constant value of token i (EOF=0, ERROR=1).
@@ -177,13 +184,19 @@ func (g *Grammar) Lox() (string, map[string]Pos) {
 		sb.WriteByte('\n')
 		line++
 	}
-	w("@lexer")
-	for _, t := range g.Tokens {
-		pos["tok:"+t.Name] = Pos{line, line}
-		w(fmt.Sprintf("%s = '%s'", t.Name, escapeLit(t.Lit)))
-	}
-	for _, l := range g.LexExtra {
-		w(l)
+	if g.CustomLexer != "" {
+		for _, l := range strings.Split(strings.TrimRight(g.CustomLexer, "\n"), "\n") {
+			w(l)
+		}
+	} else {
+		w("@lexer")
+		for _, t := range g.Tokens {
+			pos["tok:"+t.Name] = Pos{line, line}
+			w(fmt.Sprintf("%s = '%s'", t.Name, escapeLit(t.Lit)))
+		}
+		for _, l := range g.LexExtra {
+			w(l)
+		}
 	}
 	w("")
 	w("@parser")
